@@ -14,4 +14,8 @@ for p in sorted(glob.glob(os.path.join(ROOT, "seeded", "*", "meta.json"))):
             outs.append(f"{prop}: {kind}" + (f" `{d}`" if d else ""))
         else:
             outs.append(f"{prop}: not caught")
-    print(f"| {m['id']} | {m['what']} | {m['needs_to_manifest']} | {'; '.join(outs).replace('|','/')} | {m.get('strengthening','—')} |")
+    notes = m.get('strengthening', '—')
+    for k in ('rebased', 'superseded'):
+        if m.get(k):
+            notes = (notes + ' ' if notes != '—' else '') + f"[{k}] " + m[k]
+    print(f"| {m['id']} | {m['what']} | {m['needs_to_manifest']} | {'; '.join(outs).replace('|','/')} | {notes.replace('|','/')} |")
